@@ -9,8 +9,25 @@
    `C04_expand_is_product_refuted`, by computation).  They are proved under
    the strengthened `seg_ok'` which requires the common length n of an alpha
    group to be > 0 (equivalently: seg_ok and every alpha word non-empty, see
-   `seg_ok'_iff`).  Everything else (E2, E4, E5, Some 0 = None) holds as
-   stated, E2 and Some 0 = None for arbitrary parse trees. *)
+   `seg_ok'_iff`).
+   The same theorems restated with the ORIGINAL seg_ok plus the extra
+   hypothesis `nonempty_words` are `C04_expand_is_product_partial` and
+   `C04_limit_partial`.
+   Everything else (E2, E4, E5, Some 0 = None) holds as stated; E2 and
+   Some 0 = None hold for arbitrary (also malformed) parse trees.
+
+   Other facts of the model worth knowing (proved below, not defects of the
+   model): a Markov slot ignores the other values of its group, the slots
+   after it AND the guess built so far (`C04_markov_any_rest`); the
+   capitalisation slot cuts the tail with the length of the FIRST mask only.
+
+   Main names: C04_expand_is_product(_cur), C04_count_is_lines, C04_limit,
+   C04_limit_zero(_is_none), C04_markov, C04_markov_group_uses_first_only,
+   C04_each_once, C04_alpha_choices, C04_alpha_each_once,
+   C04_product_each_once, C04_expand_is_product_refuted, C04_limit_refuted,
+   examples C04_example_*.  Technique: both inner loops of expand are
+   instances of `gloop`; `behaves r full` says r is a limited enumerator of
+   full; `gloop_behaves` composes enumerators. *)
 From Coq Require Import List Arith Bool NArith Lia.
 From Pcfg Require Import Expand.
 Import ListNotations.
@@ -464,19 +481,22 @@ Proof.
         (fun w => flat_map (fun m => map (app (cur ++ mask_total upper_c m w))
                                           (denote upper_c segs)) ms)).
       * cbn [seg_choices]. rewrite flat_map_flat_map'.
-        assert (E : flat_map (fun w => flat_map (fun m => map (app (cur ++ mask_total upper_c m w))
-                                          (denote upper_c segs)) ms) ws =
-                    flat_map (fun x => flat_map (fun x0 => map (app (cur ++ x0)) (denote upper_c segs))
-                                 (map (fun m => mask_total upper_c m x) ms)) ws).
-        { apply flat_map_ext. intros w. now rewrite flat_map_map'. }
-        rewrite E. reflexivity.
+        match goal with
+        | |- Some ([] ++ lim_take l ?A, _) = Some (lim_take l ?B, _) =>
+          change (Some (lim_take l A, length (lim_take l A)) =
+                  Some (lim_take l B, length (lim_take l B)));
+          apply (f_equal (fun X => Some (lim_take l X, length (lim_take l X))))
+        end.
+        apply flat_map_ext. intros w. symmetry. apply flat_map_map'.
       * apply Forall_forall. intros w Hin l'.
         assert (Hlw : length w = n) by (rewrite Forall_forall in Fw; auto).
         cbn [cont]. rewrite expand_cons. cbn [scat svals].
         destruct ms as [|m0 ms']; [congruence|].
         assert (Hm0 : length m0 = n) by (now inversion Fm).
         rewrite Hm0, py_tail_app, py_drop_tail_app by assumption.
-        apply gloop_behaves.
+        rewrite (gloop_behaves _
+          (fun m => map (app (cur ++ mask_total upper_c m w)) (denote upper_c segs)));
+          [reflexivity|].
         apply Forall_forall. intros m Hinm l''.
         assert (Hlm : length m = n) by (rewrite Forall_forall in Fm; auto).
         rewrite mask_apply_total by congruence. apply IH.
@@ -500,7 +520,7 @@ Proof.
 Qed.
 
 Lemma map_app_nil (X : list str) : map (app []) X = X.
-Proof. induction X; simpl; congruence. Qed.
+Proof. exact (map_id X). Qed.
 
 Theorem C04_expand_is_product segs :
   segs <> [] -> Forall seg_ok' segs ->
@@ -530,4 +550,157 @@ Proof.
   now apply C04_expand_is_product_cur.
 Qed.
 
+(* ------------------------------------------------------------------ *)
+(* E5 (stronger): the derivation (i, j) sits at exactly one index *)
+
+Lemma nth_flat_map_uniform {A B} (f : A -> list B) n d d' : forall xs i j,
+  (forall x, In x xs -> length (f x) = n) -> i < length xs -> j < n ->
+  nth (i * n + j) (flat_map f xs) d = nth j (f (nth i xs d')) d.
+Proof.
+  induction xs as [|x xs IH]; intros i j Hlen Hi Hj; [simpl in Hi; lia|].
+  simpl flat_map. destruct i as [|i].
+  - simpl. apply app_nth1. rewrite Hlen by (now left). assumption.
+  - replace (S i * n + j) with (length (f x) + (i * n + j))
+      by (rewrite Hlen by (now left); lia).
+    rewrite app_nth2_plus. simpl nth at 2.
+    apply IH; [intros y Hy; apply Hlen; now right|simpl in Hi; lia|assumption].
+Qed.
+
+Theorem C04_alpha_each_once ws ms i j :
+  i < length ws -> j < length ms ->
+  nth (i * length ms + j) (seg_choices upper_c (SegAlpha ws ms)) [] =
+  mask_total upper_c (nth j ms []) (nth i ws []).
+Proof.
+  intros Hi Hj. cbn [seg_choices].
+  rewrite (nth_flat_map_uniform (A:=str) (B:=str) _ (length ms) [] []); auto.
+  - rewrite (nth_indep _ [] (mask_total upper_c [] (nth i ws [])))
+      by (now rewrite map_length).
+    apply (map_nth (fun m => mask_total upper_c m (nth i ws []))).
+  - intros w _. apply map_length.
+Qed.
+
+Theorem C04_product_each_once c r i j :
+  i < length c -> j < length (product r) ->
+  nth (i * length (product r) + j) (product (c :: r)) [] =
+  nth i c [] ++ nth j (product r) [].
+Proof.
+  intros Hi Hj. cbn [product].
+  rewrite (nth_flat_map_uniform (A:=str) (B:=str) _ (length (product r)) [] []); auto.
+  - rewrite (nth_indep _ [] (nth i c [] ++ [])) by (now rewrite map_length).
+    apply (map_nth (app (nth i c []))).
+  - intros x _. apply map_length.
+Qed.
+
 End ExpandProofs.
+
+(* ------------------------------------------------------------------ *)
+(* the statement with the original seg_ok is false: an alpha group of
+   length 0 makes the capitalisation slot drop the guess built so far *)
+
+Definition segs_refute : list seg := [SegPlain [[97%N]]; SegAlpha [[]] [[]]].
+
+Lemma segs_refute_ok : segs_refute <> [] /\ Forall seg_ok segs_refute.
+Proof.
+  split; [discriminate|].
+  repeat constructor; try discriminate.
+  exists 0. split; repeat constructor.
+Qed.
+
+Theorem C04_expand_is_product_refuted upper_c omen :
+  segs_refute <> [] /\ Forall seg_ok segs_refute /\
+  expand upper_c omen (flat_map slots_of segs_refute) [] None = Some ([[]], 1) /\
+  denote upper_c segs_refute = [[97%N]] /\
+  expand upper_c omen (flat_map slots_of segs_refute) [] None <>
+  Some (denote upper_c segs_refute, length (denote upper_c segs_refute)).
+Proof.
+  destruct segs_refute_ok as [H1 H2].
+  repeat split; auto. discriminate.
+Qed.
+
+Theorem C04_limit_refuted upper_c omen :
+  expand upper_c omen (flat_map slots_of segs_refute) [] (Some 3) <>
+  Some (firstn 3 (map (app []) (denote upper_c segs_refute)),
+        Nat.min 3 (length (denote upper_c segs_refute))).
+Proof. discriminate. Qed.
+
+(* the closest true statements phrased with the original seg_ok *)
+Theorem C04_expand_is_product_partial upper_c omen segs cur :
+  segs <> [] -> Forall seg_ok segs -> Forall nonempty_words segs ->
+  expand upper_c omen (flat_map slots_of segs) cur None =
+  Some (map (app cur) (denote upper_c segs), length (denote upper_c segs)).
+Proof.
+  intros Hne Hok Hnw. apply C04_expand_is_product_cur; [assumption|].
+  rewrite Forall_forall in *. intros s Hs. apply seg_ok'_iff. auto.
+Qed.
+
+Theorem C04_limit_partial upper_c omen segs cur n :
+  segs <> [] -> Forall seg_ok segs -> Forall nonempty_words segs -> n >= 1 ->
+  expand upper_c omen (flat_map slots_of segs) cur (Some n) =
+  Some (firstn n (map (app cur) (denote upper_c segs)),
+        Nat.min n (length (denote upper_c segs))).
+Proof.
+  intros Hne Hok Hnw Hn. apply C04_limit; [assumption| |assumption].
+  rewrite Forall_forall in *. intros s Hs. apply seg_ok'_iff. auto.
+Qed.
+
+(* ------------------------------------------------------------------ *)
+(* E6: concrete instances by computation *)
+
+Definition up_ascii (c : N) : str :=
+  if (N.leb 97 c && N.leb c 122)%bool then [(c - 32)%N] else [c].
+Definition no_omen (_ : str) : list str := [].
+
+(* "1" | "2" ; {"ab","cd"} x {"LL","UL"} ; "!" | "?" | "#" *)
+Definition segs_ex : list seg :=
+  [ SegPlain [[49]; [50]];
+    SegAlpha [[97; 98]; [99; 100]] [[76; 76]; [85; 76]];
+    SegPlain [[33]; [63]; [35]] ]%N.
+
+Example C04_example_product :
+  expand up_ascii no_omen (flat_map slots_of segs_ex) [] None =
+  Some (denote up_ascii segs_ex, 2 * (2 * 2) * 3).
+Proof. vm_compute. reflexivity. Qed.
+
+Example C04_example_size : length (denote up_ascii segs_ex) = 24.
+Proof. vm_compute. reflexivity. Qed.
+
+Example C04_example_order :
+  firstn 7 (denote up_ascii segs_ex) =
+  [ [49; 97; 98; 33]; [49; 97; 98; 63]; [49; 97; 98; 35];     (* 1ab! 1ab? 1ab# *)
+    [49; 65; 98; 33]; [49; 65; 98; 63]; [49; 65; 98; 35];     (* 1Ab! 1Ab? 1Ab# *)
+    [49; 99; 100; 33] ]%N.                                     (* 1cd! *)
+Proof. vm_compute. reflexivity. Qed.
+
+Example C04_example_limit :
+  expand up_ascii no_omen (flat_map slots_of segs_ex) [] (Some 5) =
+  Some (firstn 5 (denote up_ascii segs_ex), 5).
+Proof. vm_compute. reflexivity. Qed.
+
+Example C04_example_limit_beyond :
+  expand up_ascii no_omen (flat_map slots_of segs_ex) [] (Some 100) =
+  Some (denote up_ascii segs_ex, 24).
+Proof. vm_compute. reflexivity. Qed.
+
+(* a mask longer than the guess built so far: IndexError *)
+Example C04_example_index_error :
+  expand up_ascii no_omen
+    [ {| scat := CatPlain; svals := [[97%N]] |};
+      {| scat := CatC; svals := [[85%N; 85%N]] |} ] [] None = None.
+Proof. vm_compute. reflexivity. Qed.
+
+(* an empty parse tree, an empty capitalisation group, an empty Markov group: raise *)
+Example C04_example_empty_pt : expand up_ascii no_omen [] [] None = None.
+Proof. reflexivity. Qed.
+
+(* upper() that expands: 'ß' -> "SS" *)
+Definition up_sharp (c : N) : str := if N.eqb c 223 then [83; 83]%N else up_ascii c.
+Example C04_example_expanding_upper :
+  expand up_sharp no_omen (flat_map slots_of [SegAlpha [[97; 223]%N] [[85; 85]%N]]) [120%N] None =
+  Some ([[120; 65; 83; 83]%N], 1).
+Proof. vm_compute. reflexivity. Qed.
+
+Print Assumptions C04_expand_is_product.
+Print Assumptions C04_expand_is_product_cur.
+Print Assumptions C04_limit.
+Print Assumptions C04_count_is_lines.
+Print Assumptions C04_limit_zero_is_none.
